@@ -486,6 +486,16 @@ const TEXT_FORMS: &[(&str, &str)] = &[
     ("array-ref-param", "def f(readonly array[int[8], 4] a) { }"),
     ("array-ref-param", "def f(mutable array[int[8], #dim = 2] a) { }"),
     ("array-ref-param", "def f(readonly array[float[64], 2, 3] a, int n) -> int { return n; }"),
+    ("delay-without-operands", "delay[10ns];"),
+    ("delay-without-operands", "duration d = 1ns; delay[d];"),
+    ("delay-without-operands", "gate g q { delay[2dt]; }"),
+    ("barrier-without-operands", "barrier;"),
+    ("leading-zero-literal", "int x = 007;"),
+    ("leading-zero-literal", "float f = 00.5;"),
+    ("leading-zero-literal", "int[8] a; a[00] = 01;"),
+    ("leading-zero-literal", "int y = 0_0 + 00_1;"),
+    ("leading-zero-literal", "duration t = 00ns;"),
+    ("leading-zero-literal", "float g = 00e1;"),
     ("pragma-keyword-gap", "pragma§user alpha 2.0\nint x;"),
     ("pragma-keyword-gap", "#pragma§user alpha 2.0\nint x;"),
     ("pragma-keyword-gap", "int x;\npragma§note\nint y;"),
